@@ -454,6 +454,7 @@ func SetModalityTypeDef(typesDef []SessionTypeDefinition) {
 // Modalities can be defined explicitly (i.e. mode ≠ UnsetMode), or taken from an Up/Down shift type.
 // If a label is reached, then the modality of that labelled type is checked. If a (mode-less) cycle is reached, then inference stops.
 func (q *LabelType) inferModality(labelledTypesEnv LabelledTypesEnv, usedLabels map[string]bool) Modality {
+	vhTy(4)
 	_, unset := q.Mode.(*UnsetMode)
 	if !unset {
 		// If the type already has a modality, then return it
